@@ -13,7 +13,8 @@
    * np.array of records with different dtypes -> object array -> h5py TypeError
    * zero-sized subarray field -> h5py ValueError
    * structured row assignment from a tuple broadcasts a length-1 list into a longer subarray
-     (anything else of the wrong length -> ValueError)
+     (anything else of the wrong length -> ValueError); since the fix f3c9dfd DropletTrack.data rejects
+     members whose dtype differs from that of the first one, so this is no longer reachable
    * int -> f8 column: correctly rounded, OverflowError beyond the double range
    * attrs["time"]: python int -> int64 (uint64 for 2^63..2^64-1, TypeError outside), float -> float64
    * group keys are listed in lexicographic (byte) order *)
@@ -294,6 +295,7 @@ Record fmt := {
   tr_time_r : string;         (* dataset[<name>] in _from_hdf_dataset *)
   tr_time_drop : string;      (* rec_drop_fields(dataset, <name>) *)
   tr_time_first : bool;       (* time column before the droplet fields *)
+  tr_layout_guard : option err;   (* DropletTrack.data raises this when member dtypes differ (None: no such check) *)
   etc_prefix : string; etc_width : Z;
   etc_time_w : string; etc_time_r : string;     (* attribute holding the time *)
   etc_sorted : bool;          (* from_file iterates sorted(fp.keys()) *)
@@ -367,6 +369,13 @@ Definition enc_track_row (fm : fmt) (d0 : drop) (td : tval * drop) : result row 
     a <- (if has_ampl (cls d0) then fit (List.length (ampl d0)) (ampl d) else Ok []) ;;
     Ok (place_time fm tf (enc_drop {| cls := cls d0; dpos := p; radius := radius d; width := width d; ampl := a |})).
 
+(* if any(d.data.dtype != d0.data.dtype for d in self.droplets): raise ...   (Some e = the error raised) *)
+Definition layout_guard (fm : fmt) (d0 : drop) (l : track) : option err :=
+  match tr_layout_guard fm with
+  | Some e => if forallb (fun td => layout_eqb (layout (snd td)) (layout d0)) l then None else Some e
+  | None => None
+  end.
+
 Definition enc_track (fm : fmt) (l : track) : result dataset :=
   match l with
   | [] => Ok (none_dataset (tr_attr_w fm) (tr_none_w fm))
@@ -374,10 +383,14 @@ Definition enc_track (fm : fmt) (l : track) : result dataset :=
     let d0 := snd td0 in
     if negb (forallb (fun td => class_eqb (cls (snd td)) (cls d0)) l) then Err EType   (* DropletTrack.data *)
     else
-      rows <- mapM (enc_track_row fm d0) l ;;
-      if zero_sized d0 then Err EValue
-      else Ok {| ds_attrs := [(tr_attr_w fm, AStr (class_name (cls (snd (sel_member (tr_sel fm) td0 l)))))];
-                 ds_body := BRows rows |}
+      match layout_guard fm d0 l with
+      | Some e => Err e
+      | None =>
+        rows <- mapM (enc_track_row fm d0) l ;;
+        if zero_sized d0 then Err EValue
+        else Ok {| ds_attrs := [(tr_attr_w fm, AStr (class_name (cls (snd (sel_member (tr_sel fm) td0 l)))))];
+                   ds_body := BRows rows |}
+      end
   end.
 
 Fixpoint remove_field (k : string) (r : row) : row :=
@@ -544,15 +557,6 @@ Definition valid_track (l : track) : bool :=
 Definition time_exact (t : tval) : bool :=
   match t with TInt z => Z.abs z <=? 2 ^ 53 | TFloat f => negb (f_is_nan f) end.
 Definition times_exact (l : track) : bool := forallb (fun td => time_exact (fst td)) l.
-
-(* no member with exactly one amplitude unless the first member has exactly one as well
-   (numpy would silently broadcast it to the mode count of the first member) *)
-Definition no_bcast (l : track) : bool :=
-  match l with
-  | [] => true
-  | (_, d0) :: _ =>
-    forallb (fun td => negb (Nat.eqb (List.length (ampl (snd td))) 1) || Nat.eqb (List.length (ampl d0)) 1) l
-  end.
 
 (* the package's equality of tracks: same droplets (here: bit-identical), times equal under == *)
 Definition track_same (a b : track) : Prop :=
